@@ -31,13 +31,33 @@ type apiOpt struct {
 	Init    bool // the program stored content in the list / map before registering it
 }
 
-var apiKinds = []string{"int", "string", "strs", "map", "float", "bool", "dur", "u8", "int", "string"}
+// iint / istrs: the variable has interface type and holds a pointer to an int / a []string the program allocated
+var apiKinds = []string{"int", "string", "strs", "map", "float", "bool", "dur", "u8", "int", "string", "iint", "istrs"}
+
+// bk: the kind of the value an option finally stores into
+func (a *apiOpt) bk() string {
+	switch a.Kind {
+	case "iint":
+		return "int"
+	case "istrs":
+		return "strs"
+	}
+	return a.Kind
+}
 
 // shorts outside both generator pools
 var apiShorts = []rune("@%+~")
 
 func apiVar(kind string) reflect.Value {
 	switch kind {
+	case "iint":
+		iv := new(interface{})
+		*iv = new(int)
+		return reflect.ValueOf(iv)
+	case "istrs":
+		iv := new(interface{})
+		*iv = new([]string)
+		return reflect.ValueOf(iv)
 	case "int":
 		return reflect.ValueOf(new(int))
 	case "string":
@@ -82,7 +102,7 @@ func addAPIOptions(r *Rand, b *Built, rootScope bool) []*apiOpt {
 		if r.Chance(1, 4) {
 			a.Short = apiShorts[i]
 		}
-		if a.Kind != "bool" && r.Chance(1, 4) {
+		if a.Kind != "bool" && a.Kind != "iint" && a.Kind != "istrs" && r.Chance(1, 4) {
 			switch a.Kind {
 			case "string":
 				a.Default = []string{"dflt"}
@@ -186,10 +206,10 @@ func apiHostileTokens(r *Rand, as []*apiOpt) []string {
 		for _, q := range []string{`"`, `"x`, `""`, `"\`, `"\"`, `'`, `"a"b"`} {
 			pool = append(pool, "--"+l+"="+q, "--"+l+"\x01"+q)
 		}
-		for _, v := range apiGood[a.Kind] {
+		for _, v := range apiGood[a.bk()] {
 			pool = append(pool, "--"+l+"="+v)
 		}
-		for _, v := range apiBad[a.Kind] {
+		for _, v := range apiBad[a.bk()] {
 			pool = append(pool, "--"+l+"="+v)
 		}
 		if a.Short != 0 {
@@ -225,8 +245,8 @@ func apiOccurrences(r *Rand, as []*apiOpt, sepOK bool) (toks []string, want map[
 			seen[a]++
 			continue
 		}
-		v := apiGood[a.Kind][r.Intn(len(apiGood[a.Kind]))]
-		negNumber := len(v) > 1 && v[0] == '-' && v[1] >= '0' && v[1] <= '9' && (a.Kind == "int" || a.Kind == "float")
+		v := apiGood[a.bk()][r.Intn(len(apiGood[a.bk()]))]
+		negNumber := len(v) > 1 && v[0] == '-' && v[1] >= '0' && v[1] <= '9' && (a.Kind == "int" || a.Kind == "float") // (declared numeric kinds only)
 		if sepOK && v != "" && (v[0] != '-' || negNumber) && r.Chance(1, 3) {
 			// argument as the next token (an option that takes an argument consumes any next token that does not
 			// look like an option)
@@ -235,7 +255,7 @@ func apiOccurrences(r *Rand, as []*apiOpt, sepOK bool) (toks []string, want map[
 			toks = append(toks, name+"="+v)
 		}
 		seen[a]++
-		switch a.Kind {
+		switch a.bk() {
 		case "strs":
 			strs[a] = append(strs[a], denoteText(v))
 			want[a] = fmt.Sprintf("%q", strs[a])
@@ -299,7 +319,7 @@ func (a *apiOpt) unsetWant() string {
 		if a.Init {
 			return `"old":9,`
 		}
-		switch a.Kind {
+		switch a.bk() {
 		case "int", "u8", "float":
 			return "0"
 		case "string":
@@ -330,7 +350,13 @@ func (a *apiOpt) unsetWant() string {
 
 func (a *apiOpt) current() string {
 	v := a.Ptr.Elem()
-	switch a.Kind {
+	if a.Kind == "iint" || a.Kind == "istrs" {
+		if v.IsNil() || v.Elem().Kind() != reflect.Ptr || v.Elem().IsNil() {
+			return "<the interface no longer holds the pointer the program stored>"
+		}
+		v = v.Elem().Elem()
+	}
+	switch a.bk() {
 	case "strs":
 		return fmt.Sprintf("%q", v.Interface().([]string))
 	case "map":
@@ -403,7 +429,7 @@ func apiIniCase(c *Ctx, d *Decl) {
 	if r.Chance(1, 3) {
 		bad := map[string][]string{"int": {"x", "1.5", "99999999999999999999"}, "float": {"x"}, "dur": {"x", "5"}, "u8": {"256", "-1"}, "map": {"a:x"}}
 		for _, a := range added {
-			if vs := bad[a.Kind]; len(vs) > 0 {
+			if vs := bad[a.bk()]; len(vs) > 0 {
 				at := r.Intn(len(lines) + 1)
 				ln := a.Full + " = " + vs[r.Intn(len(vs))]
 				lines = append(lines[:at], append([]string{ln}, lines[at:]...)...)
@@ -929,6 +955,10 @@ func apiMiniDoc(c *Ctx) {
 // apiMiniComplete (C18): a partial long name or a bare dash yields exactly the visible options in scope.
 func apiMiniComplete(c *Ctx) {
 	r := c.Sub("api-mini")
+	if r.Chance(1, 5) {
+		apiMiniTwinWord(c, r)
+		return
+	}
 	m := buildMiniMode(r, "comp")
 	var args []string
 	inCmd := m.Cmd != nil && r.Bool()
@@ -1178,4 +1208,60 @@ func apiMiniRoundTrip(c *Ctx) {
 		}
 	}
 	c.Held("api-added/round-trip", fmt.Sprintf("opts=%d n=%d", int(wo), len(args)))
+}
+
+// apiMiniTwinWord (C18): one word designates two sibling commands (an alias of one equals the name or an alias of
+// the other). The statement does not say which one the word selects, but completion must continue in the command
+// context the parser's own parse of the same prefix reaches.
+func apiMiniTwinWord(c *Ctx, r *Rand) {
+	variant := r.Intn(4)
+	build := func() (*flags.Parser, []string) {
+		p := flags.NewNamedParser("mini", flags.PassDoubleDash)
+		var desc []string
+		mk := func(name string, aliases []string, opt string) {
+			cm, _ := p.AddCommand(name, "", "", &struct{}{})
+			cm.Aliases = aliases
+			cm.AddOption(&flags.Option{LongName: opt}, new(string))
+			desc = append(desc, fmt.Sprintf("AddCommand(%q) Aliases=%q with added option --%s", name, aliases, opt))
+		}
+		switch variant {
+		case 0:
+			mk("list", []string{"ls"}, "of-list")
+			mk("ls", nil, "of-ls")
+		case 1:
+			mk("ls", nil, "of-ls")
+			mk("list", []string{"ls"}, "of-list")
+		case 2:
+			mk("remove", []string{"rm", "ls"}, "of-remove")
+			mk("list", []string{"ls"}, "of-list")
+		default:
+			mk("list", []string{"l", "ls"}, "of-list")
+			mk("other", nil, "of-other")
+			mk("ls", []string{"dir"}, "of-ls")
+		}
+		return p, desc
+	}
+	p1, desc := build()
+	p2, _ := build()
+	c.Case(func() interface{} { return map[string]interface{}{"program": desc, "typed": `["ls" "--"]`} })
+	var err error
+	pi := safely(func() { _, err = p1.ParseArgs([]string{"ls"}) })
+	if pi != nil || err != nil || p1.Active == nil {
+		c.Unspec("the parser does not accept the doubly registered word")
+		return
+	}
+	reached := p1.Active.Name
+	want := "--of-" + reached
+	got, calls, pi := c18Complete(&Built{P: p2}, []string{"ls", "--"})
+	c.Count("completions", 1)
+	if pi != nil {
+		c.Violate("api-added-option:panic:"+panicSite(pi.Stack), "completion panicked: %s", pi.Value)
+		return
+	}
+	items := itemsOf(got)
+	if calls != 1 || len(items) != 1 || items[0] != want {
+		c.Violate("twin-command-word:other-context", "the parser's parse of [ls] reaches command %q, completion of [ls --] offers %q (handler calls: %d), expected [%s]", reached, items, calls, want)
+		return
+	}
+	c.Held("api-added/complete/twin-word", fmt.Sprintf("variant=%d reached=%s", variant, reached))
 }
